@@ -648,7 +648,7 @@ def check_receivers(ctx, cfg):
         ok = bool(an.returns) and all(full_slice(an, r["facts"], r["val"], N, lambda bse: bse == ("arg", 1)) and r["val"][4] is mut for r in an.returns)
         ctx.ob(rule, key, ok, "into_iter = the full forward slice iterator over self: %s" % ok, at=b["at"], cfg=cfg)
         n += 1
-    if cfg != "F0":
+    if (not cfg.startswith("F0")):
         key = "<alloc::boxed::Box<GenericArray<$0,$1>,alloc::alloc::Global> as core::iter::IntoIterator>::into_iter"
         b = ctx.body(cfg, key, rule)
         if b is not None:
@@ -749,7 +749,7 @@ def check_default_clone(ctx, cfg, rule="C08.D", only_default=False):
                 ok = bool(whole) and not others and all(r["val"] == fi[0].ret for r in an.returns)
                 det = "Clone = from_iter over the element-wise clones of the whole of self, in order: %s" % ok
         ctx.ob(rule, key, ok, det, at=b["at"], cfg=cfg)
-    if cfg != "F0":
+    if (not cfg.startswith("F0")):
         key = "GenericArray<$0,$1>::default_boxed"
         b = ctx.body(cfg, key, rule)
         if b is not None:
@@ -780,7 +780,7 @@ def check(ctx):
         verify_models(ctx, cfg, ["ArrayConsumer<$0,$1>::new", "ArrayConsumer<$0,$1>::iter_position", "IntrusiveArrayBuilder<$0,$1>::new", "IntrusiveArrayBuilder<$0,$1>::iter_position"])
         check_views(ctx, cfg)
         n = check_generate(ctx, cfg, GS + "generate", False)
-        if cfg != "F0":
+        if (not cfg.startswith("F0")):
             n += check_generate(ctx, cfg, "<alloc::boxed::Box<GenericArray<$0,$1>,alloc::alloc::Global> as GenericSequence<$0>>::generate", True)
         n += check_map_fold(ctx, cfg)
         # zip bodies: (left operand of Zip, right operand of Zip, arguments of f)
